@@ -36,6 +36,23 @@ Theorem C18_leave_monitor : forall t o t', Inv t -> step t o = Some t' -> pol_le
 Proof. exact pol_leave_holds. Qed.
 Print Assumptions C18_leave_monitor.
 
+(* the failure counter in cause_b is the number of CONSECUTIVE failed track requests of (id, ip) since the last
+   successful one (consec), a function of the operation history alone (hist_fails): no other operation touches it,
+   and it survives removal and re-adding of the node, as the node database does *)
+Theorem C18_fail_counter_is_consecutive : forall s os t id ip,
+  steps (init s) os = Some t ->
+  fails t = hist_fails os /\ (ip_valid ip = true -> fails_read (fails t) id ip = consec os id ip 0).
+Proof. exact fail_counter_is_consecutive. Qed.
+Print Assumptions C18_fail_counter_is_consecutive.
+
+(* hence the leave-cause predicate may be evaluated with the counter derived from the executed operations
+   (this is what the driver does on implementation snapshots - not with the implementation's own counter) *)
+Theorem C18_leave_monitor_hist : forall s os t o t',
+  s < two_hash -> Forall op_wf os -> steps (init s) os = Some t -> step t o = Some t' ->
+  pol_leave_b (with_fails t (hist_fails os)) o t' = true.
+Proof. exact leave_monitor_hist. Qed.
+Print Assumptions C18_leave_monitor_hist.
+
 (* (3) the leaver is succeeded by a replacement iff one existed: deleteInBucket is the only place where an entry
        is removed (all three causes go through it); the promoted replacement is appended and flagged fast *)
 Theorem C18_leaver_is_succeeded : forall id pick g b g' b',
